@@ -23,3 +23,5 @@ func TestC14(t *testing.T) { runProp(t, "C14", drawC14) }
 func TestC15(t *testing.T) { runProp(t, "C15", drawC15) }
 
 func TestC17(t *testing.T) { runProp(t, "C17", drawC17) }
+
+func TestC18(t *testing.T) { runProp(t, "C18", drawC18) }
